@@ -220,6 +220,12 @@ var properties = map[string]*Property{
 			CPU1:     true,
 			Quick:    Tier{Runs: 2000, BudgetS: 100},
 			Thorough: Tier{Runs: 100000, BudgetS: 1200},
+		}, {
+			Name: "provider-fs", Property: "C18", Pkg: "./internal/rules/provider/filesystem", Test: "TestVerifC18FS",
+			Dirs:     []string{"internal/rules/provider/filesystem"},
+			Files:    []string{"zz_verif_c18_test.go"},
+			Quick:    Tier{Runs: 3000, BudgetS: 100},
+			Thorough: Tier{Runs: 150000, BudgetS: 1200},
 		}},
 		Rule: "TODO",
 		Real: []string{"TODO"},
